@@ -77,7 +77,7 @@ pub fn prefix_width(l: &str) -> usize {
 fn has_blank_pre(v: &[Block]) -> bool {
     v.iter().any(|b| match b {
         Block::Pre(_, lines) => !lines.iter().flatten().any(|t| matches!(t, PreTok::Word(_))),
-        Block::Div(_, k) | Block::Quote(_, k) => has_blank_pre(k),
+        Block::Div(_, k) | Block::Quote(_, k) | Block::Wrap(_, _, k) => has_blank_pre(k),
         Block::Ul(_, it) | Block::Ol(_, _, it) => it.iter().any(|x| has_blank_pre(&x.kids)),
         Block::Dl(_, it) => it.iter().any(|x| has_blank_pre(&x.kids)),
         Block::Table(t) => t.rows.iter().flat_map(|r| r.cells.iter()).any(|c| has_blank_pre(&c.kids)),
@@ -96,6 +96,7 @@ fn has_decoratable(v: &[Block]) -> bool {
     v.iter().any(|b| match b {
         Block::P(_, i) | Block::Inl(i) | Block::H(_, _, i) => inl(i),
         Block::Div(_, k) | Block::Quote(_, k) => has_decoratable(k),
+        Block::Wrap(t, _, k) => matches!(t, ITag::Em | ITag::I | ITag::Ins | ITag::Strong | ITag::Code) || has_decoratable(k),
         Block::Ul(_, it) | Block::Ol(_, _, it) => it.iter().any(|x| has_decoratable(&x.kids)),
         Block::Dl(_, it) => it.iter().any(|x| x.dt || has_decoratable(&x.kids)),
         Block::Table(t) => t.rows.iter().flat_map(|r| r.cells.iter()).any(|c| has_decoratable(&c.kids)),
